@@ -401,7 +401,9 @@ fn dedent_block_string(value: &str) -> String {
             result.push_str(line);
         } else if let Some(indent) = common_indent {
             if line.len() > indent {
-                result.push_str(&line[indent..]);
+                // `indent` is a byte count taken from another line; this line may have a
+                // multi-byte whitespace character there, so only cut on a char boundary
+                result.push_str(line.get(indent..).unwrap_or_else(|| line.trim_start()));
             }
         } else {
             result.push_str(line);
